@@ -5,6 +5,7 @@ pub mod c01;
 pub mod c03;
 pub mod c04;
 pub mod c07;
+pub mod c08;
 pub mod c10;
 pub mod c11;
 pub mod c14;
@@ -18,6 +19,7 @@ pub fn run(prop: &str, ctx: &mut Ctx) -> bool {
         "C03" => c03::run(ctx),
         "C04" => c04::run(ctx),
         "C07" => c07::run(ctx),
+        "C08" => c08::run(ctx),
         "C10" => c10::run(ctx),
         "C11" => c11::run(ctx),
         "C14" => c14::run(ctx),
@@ -37,6 +39,7 @@ pub fn replay(prop: &str, ctx: &mut Ctx, file: &J) {
         "C03" => c03::replay(ctx, &case),
         "C04" => c04::replay(ctx, &case),
         "C07" => c07::replay(ctx, &case),
+        "C08" => c08::replay(ctx, &case),
         "C10" => c10::replay(ctx, &case),
         "C11" => c11::replay(ctx, &case),
         "C14" => c14::replay(ctx, &case),
